@@ -9,6 +9,7 @@ their round-trip laws (`LawfulXP`).
 -/
 import TdModel.Lemmas.C09Key
 import TdModel.Lemmas.C09Sched
+import TdModel.Lemmas.C09BytesRt
 
 namespace TdModel.C09
 open TdModel
@@ -153,5 +154,57 @@ theorem symXP_lawful (sha1 : Bytes → Bytes) (isPrime : Nat → Bool) (factor :
   rsa_dec_enc := by intro fp d pad; simp [symXP]
   decS_encS := by intro k d pad; simp [symXP]
   decC_encC := by intro k d pad; simp [symXP]
+
+/-! ## the byte level (TdModel/Model/C09Bytes.lean): TL encoding of the exchange's constructors,
+interpreted from the layouts regenerated from package mt -/
+
+/-- For each of the 14 constructors: the generated `EncodeBare` writes the same kinds of fields, in
+the same order, as the generated `DecodeBare` reads; ids fit 32 bits; `Encode`/`Decode` = id + bare. -/
+theorem tl_layouts_consistent :
+    Facts.C09.tlLayouts.all (fun r => r.2.2.1.map (·.1) == r.2.2.2 && decide (r.2.1 < 2 ^ 32)) = true ∧
+    Facts.C09.tlBoxedIsIdThenBare = true := layouts_consistent
+
+/-- Generic object round trip: for every constructor with consistent layouts, whatever `T.Encode`
+produces (for field values of the right kinds and sizes) `T.Decode` reads back, field by field,
+leaving exactly the bytes that followed the object. -/
+theorem tl_object_roundtrip (T : String) (L : Layout) (hL : layoutOf T = some L)
+    (hcons : L.enc.map (·.1) = L.dec) (hid : L.id < 2 ^ 32)
+    (fields : String → Option FV) (b rest : Bytes) (h : encObj T fields = some b) :
+    ∃ vs, collect fields L.enc = some vs ∧ decObj T (b ++ rest) = .ok ((L.enc.map (·.2)).zip vs, rest) :=
+  decObj_encObj T L hL hcons hid fields b rest h
+
+/-- `SetBytes(x.Bytes()) = x`. -/
+theorem big_bytes_roundtrip (n : Nat) : beNat (natBE n) = n := beNat_natBE n
+
+/-- The three inner-data objects round-trip through their TL bytes (any bytes may follow: random
+padding, trailing data), for nonces of the right length and numbers below 2^32768. -/
+theorem server_inner_roundtrip (d : SInner) (h : d.wf) :
+    ∃ b, encSInner d = some b ∧ ∀ rest, decSInner (b ++ rest) = some d := sinner_roundtrip d h
+theorem client_inner_roundtrip (d : CInner) (h : d.wf) :
+    ∃ b, encCInner d = some b ∧ ∀ rest, decCInner (b ++ rest) = some d := cinner_roundtrip d h
+theorem pq_inner_roundtrip (d : PQInner) (h : d.wf) :
+    ∃ b, encPQInner d = some b ∧ ∀ rest, decPQInner (b ++ rest) = some d := pqinner_roundtrip d h
+
+/-- The messages the client reads decode, with the decoder of their step, to what was encoded. -/
+theorem resPQ_bytes_roundtrip (n sn : Bytes) (pq : Nat) (fps : List Nat)
+    (h1 : n.length = 16) (h2 : sn.length = 16) (h3 : pq < 256 ^ 4096)
+    (h4 : fps.length < 2147483648) (h5 : ∀ x ∈ fps, x < 18446744073709551616) :
+    ∃ b, encMsg (.resPQ n sn pq fps) = some b ∧ ∀ rest, decServerMsg 0 (b ++ rest) = .resPQ n sn pq fps :=
+  resPQ_roundtrip n sn pq fps h1 h2 h3 h4 h5
+theorem dhOk_bytes_roundtrip (n sn ct : Bytes) (h1 : n.length = 16) (h2 : sn.length = 16) (h3 : ct.length < 2 ^ 24) :
+    ∃ b, encMsg (.dhOk n sn ct) = some b ∧ ∀ rest, decServerMsg 1 (b ++ rest) = .dhOk n sn ct :=
+  dhOk_roundtrip n sn ct h1 h2 h3
+theorem genOk_bytes_roundtrip (n sn hash : Bytes) (h1 : n.length = 16) (h2 : sn.length = 16) (h3 : hash.length = 16) :
+    ∃ b, encMsg (.genOk n sn hash) = some b ∧ ∀ rest, decServerMsg 2 (b ++ rest) = .genOk n sn hash :=
+  genOk_roundtrip n sn hash h1 h2 h3
+theorem reqPQ_bytes_roundtrip (n : Bytes) (h1 : n.length = 16) :
+    ∃ b, encMsg (.reqPQ n) = some b ∧ ∀ rest, decClientMsg (b ++ rest) = .reqPQ n := reqPQ_roundtrip n h1
+
+-- Non-vacuity: the documented sample ResPQ payload
+-- (core.telegram.org/mtproto/samples-auth_key) decodes to its fields.
+set_option maxRecDepth 20000 in
+example : decServerMsg 0 [99, 36, 22, 5, 62, 5, 73, 130, 140, 202, 39, 233, 102, 179, 1, 164, 143, 236, 226, 252, 165, 207, 77, 51, 244, 161, 30, 168, 119, 186, 74, 165, 115, 144, 115, 48, 8, 23, 237, 72, 148, 26, 8, 249, 129, 0, 0, 0, 21, 196, 181, 28, 1, 0, 0, 0, 33, 107, 232, 108, 2, 43, 180, 195] =
+    .resPQ [62, 5, 73, 130, 140, 202, 39, 233, 102, 179, 1, 164, 143, 236, 226, 252] [165, 207, 77, 51, 244, 161, 30, 168, 119, 186, 74, 165, 115, 144, 115, 48]
+      1724114033281923457 [14101943622620965665] := by decide
 
 end TdModel.C09
